@@ -238,6 +238,16 @@ pub fn exec(w: &mut World, slot: usize, op: &Op) -> StepOut {
                 },
                 TryInsert(i, kt, kh, vt, vg, vh) => match c.try_insert(VKey::new(*i, *kt, *kh), VVal { tok: *vt, tag: *vg, heap: *vh }) {
                     Ok(()) => "try_ok".to_string(),
+                    // every other rejected call goes through the accessors of TryInsertError instead of destructuring it:
+                    // entry() / key() / value() must show the very pair that into_entry() then hands back
+                    Err(e) if (*kt + *vt) % 2 == 1 => {
+                        let variant = match &e { TryInsertError::EntryTooLarge { entry_size, max_size, .. } => format!("try_toolarge:@:{}:{}", entry_size, max_size),
+                            TryInsertError::WouldEjectLru { entry_size, free_memory, .. } => format!("try_wouldeject:@:{}:{}", entry_size, free_memory),
+                            TryInsertError::OccupiedEntry { .. } => "try_occupied:@".to_string() };
+                        let seen = { let (k, v) = e.entry(); (k.tok, v.tok, e.key().tok, e.value().tok) };
+                        let (k, v) = e.into_entry();
+                        let s = if seen == (k.tok, v.tok, k.tok, v.tok) { variant.replace('@', &kvs(&k, &v)) } else { "try_badaccessor".to_string() };
+                        std::mem::forget((k, v)); s }
                     Err(TryInsertError::EntryTooLarge { key, value, entry_size, max_size }) => {
                         let s = format!("try_toolarge:{}:{}:{}", kvs(&key, &value), entry_size, max_size); std::mem::forget((key, value)); s }
                     Err(TryInsertError::WouldEjectLru { key, value, entry_size, free_memory }) => {
